@@ -16,5 +16,5 @@ echo "== checks on /repo with patch applied"
 git -C /repo apply $D/patch.diff || exit 2
 cd /verif
 for c in "$@"; do ./check $c --tier ${TIER:-quick} 2>&1 | grep -E "VIOLATION|KNOWN-FINDING|quick:|thorough:|Error|Traceback" | cut -c1-300; done
-git -C /repo checkout -- .
+git -C /repo checkout -- . && git -C /repo clean -fdq
 git -C /repo status --short
